@@ -22,7 +22,7 @@ CHECKS = {
     "C12": (
         "property-based testing (proptest) of BER configurations with a checker-supplied DecoderFactory as observation point; structural oracles (own GF(2) solve / re-encoding, exact zeros) and statistical oracles (+-7 sigma on recovered noise, 8PSK LLR inversion by Gauss-Newton)",
         "Generated configurations; every recorded frame checked structurally; noise statistics tested against the expected sigma with +-7 sigma acceptance. Exploration only; the engine's RNG is not seedable (see level note).",
-        "The engine draws from rand::rng(): structural verdicts are draw-independent, statistical ones have per-test false-alarm probability < 3e-12. Hard decisions equal the sent bits at the generated noise levels (error < 1e-11 per bit).",
+        "The engine draws from rand::rng(): structural verdicts are draw-independent, statistical ones have per-test false-alarm probability < 3e-12. Hard decisions equal the sent bits at the generated noise levels (error < 1e-14 per sample: BPSK sigma <= 0.13, 8PSK sigma <= 0.048).",
         "DESIGN.md §4 C12",
     ),
     "C13": (
@@ -32,13 +32,13 @@ CHECKS = {
         "DESIGN.md §4 C13",
     ),
     "C14": (
-        "property-based testing (proptest) against an own max-shifted log-sum-exp posterior with a derived tolerance; exhaustive over the 8 bit triples for the constellation; round trips on generated bit sequences",
+        "property-based testing (proptest) against an own max-shifted log-sum-exp posterior with a derived tolerance; exhaustive over the 8 bit triples for the constellation; round trips and value-level comparison of whole noisy sequences on generated bit sequences handed over in six array layouts (strided / reversed views)",
         "Generated samples/sigmas compared with an independent exact LLR; constellation enumerated exhaustively. Exploration only.",
         "Trusts the harness's transcription of the DVB-S2 8PSK mapping (checked to be Gray and equally spaced); tolerance 64 eps (|r|/sigma^2 + 1).",
         "DESIGN.md §4 C14",
     ),
     "C15": (
-        "exhaustive enumeration of interleaver shapes up to 12x12 (40x40 thorough) x direction + property-based testing of larger shapes and of puncturing patterns/lengths incl. indivisible lengths; index-formula oracle on distinct labels",
+        "exhaustive enumeration of interleaver shapes up to 12x12 (40x40 thorough) x direction + property-based testing of larger shapes and of puncturing patterns/lengths incl. indivisible lengths; index-formula oracle on distinct labels; six input array layouts (strided / reversed views) and objects reused for a second block length",
         "Shapes enumerated exhaustively up to the stated bound, random beyond; puncturer on generated patterns. Exploration beyond the enumerated bound.",
         "The interleaver has no error channel; the error clause is applied to the puncturer (Result API).",
         "DESIGN.md §4 C15",
@@ -50,19 +50,19 @@ CHECKS = {
         "DESIGN.md §4 C19",
     ),
     "C20": (
-        "exhaustive enumeration of dvbs2/ccsds/ccsds-c2 argument sets + property-based testing of peg, mackay-neal, systematic, encode and ber invocations of the binary built from the working tree; differential oracle = library result in-process; validity predicate for ber result lines",
+        "exhaustive enumeration of dvbs2/ccsds/ccsds-c2 argument sets + property-based testing of peg, mackay-neal, systematic, encode and ber invocations of the binary built from the working tree; differential oracle = library result in-process; validity predicate for ber result lines (binary and decimal Eb/N0 grids, sweeps of up to 21 points)",
         "Code-generation subcommands enumerated completely (stdout byte-equal to the library's alist); other subcommands on generated arguments and files. Exploration beyond the enumerated part.",
         "The binary is built by ./check from the working tree with the repository's release profile; the library functions used as reference are themselves judged by C06-C09/C16.",
         "DESIGN.md §4 C20",
     ),
     "C02": (
-        "property-based testing (proptest): matrices built by class (staircase, near-staircase, invertible P*L*U tail, singular by construction, square, single row); oracle = own GF(2) rank of the tail + own syndrome, systematic prefix and linearity over all 2^k messages (k <= 8)",
+        "property-based testing (proptest): matrices built by class (staircase, near-staircase, invertible P*L*U tail, singular by construction, square, single row); oracle = own GF(2) rank of the tail + own syndrome, systematic prefix and linearity over all 2^k messages (k <= 8), messages handed over in six array layouts; libFuzzer byte-tape campaign in the thorough tier",
         "Generated-input search against an independent GF(2) bitset elimination and syndrome. Exploration only.",
         "Trusts the harness's bitset GF(2) algebra (rank, product) used both to construct invertible tails and to decide the expected verdict.",
         "DESIGN.md §4 C02",
     ),
     "C03": (
-        "differential property testing (proptest): checker-supplied arithmetics (exact wrapping-integer min-sum, free hash-term algebra, tracing wrappers) plugged into the generic decoders vs an own edge-map interpreter of the two textbook schedules; brute-force posteriors on generated forests for the exactness clause",
+        "differential property testing (proptest): checker-supplied arithmetics (exact wrapping-integer min-sum, free hash-term algebra, both emitting a node's messages in a generated order; tracing wrappers) plugged into the generic decoders vs an own edge-map interpreter of the two textbook schedules; brute-force posteriors on generated forests for the exactness clause",
         "Reference-model comparison on generated (H, LLR, limit) incl. degree-0/1 checks; order-independent arithmetics make equality exact; exactness clause compared with enumeration of all codewords within a derived tolerance. Exploration only.",
         "Trusts the harness interpreter as the definition of the textbook schedules (with the zero-iteration shortcut C01 requires) and the brute-force posterior computation; float tolerance 16*eps*E*(1+e^M/2)*(1+|L|).",
         "DESIGN.md §4 C03",
@@ -80,13 +80,13 @@ CHECKS = {
         "DESIGN.md §4 C05",
     ),
     "C09": (
-        "property-based testing (proptest): matrices by class (full rank / rank deficient by construction, far-right pivots, zero and duplicate columns, square); oracle = own GF(2) rank, column-multiset equality, invertible tail, Encoder::from_h accepts",
+        "property-based testing (proptest): matrices by class (full rank / rank deficient by construction, far-right pivots, zero and duplicate columns, square); oracle = own GF(2) rank, column-multiset equality, invertible tail, Encoder::from_h accepts; libFuzzer byte-tape campaign in the thorough tier",
         "Generated-input search against independent bitset elimination. Exploration only.",
         "Trusts the harness's GF(2) rank; 'code unchanged up to permutation' is checked as equality of column multisets.",
         "DESIGN.md §4 C09",
     ),
     "C11": (
-        "property-based testing (proptest): structured graph generator (forests, cycles with pendant trees, two cycles, theta graphs, dense, complete bipartite) x every root x bounds 0..22 and MAX; oracle = plain BFS + edge-deletion shortest cycle through a node",
+        "property-based testing (proptest): structured graph generator (forests, cycles with pendant trees, two cycles, theta graphs, dense, complete bipartite) x every root x bounds 0..22 and MAX; oracle = plain BFS + edge-deletion shortest cycle through a node; libFuzzer byte-tape campaign in the thorough tier",
         "Generated-input search against an obviously-correct (slow) definition of distances, local girth and girth. Exploration only.",
         "Trusts the own queue BFS and the edge-deletion definition of the shortest cycle through a node.",
         "DESIGN.md §4 C11",
@@ -116,7 +116,7 @@ CHECKS = {
         "DESIGN.md §4 C18",
     ),
     "C08": (
-        "property-based testing (proptest): round-trip + own strict alist reader as oracle; mutation-based text generation for parser totality; libFuzzer campaign in the thorough tier",
+        "property-based testing (proptest): round-trip + own strict alist reader as oracle (small dense-to-empty matrices and large sparse ones with 3-4 digit indices); mutation-based text generation for parser totality; libFuzzer campaign in the thorough tier",
         "Generated-input search: every generated matrix is written in both alist forms, validated by an independent strict reader and parsed back; every generated/mutated text must be answered with Ok or Err (panics are caught and reported). Exploration only: holds on everything generated, no proof of absence.",
         "Trusts the harness's own alist reader/writer (cross-checked against each other and against the repository's test vectors); declared dimensions above 2000 are skipped as not 'moderate'.",
         "DESIGN.md §4 C08",
